@@ -19,6 +19,7 @@ open GoNfsd.Model.Fs GoNfsd.Gen.Consts
 theorem announced_consistent :
     GoNfsd.Gen.Announce.Name_max = MAXNAMELEN ∧ GoNfsd.Gen.Announce.Maxfilesize = MaxFileSize ∧
     GoNfsd.Gen.Announce.No_trunc = true ∧ GoNfsd.Gen.Announce.Wtmax = wtmaxOf 10000 ∧
+    GoNfsd.Gen.Announce.Rtmax = wtmaxOf 10000 ∧
     MAXNAMELEN + 16 = DIRENTSZ ∧ MaxFileSize ≤ (NDIRECT + NBLKBLK + NBLKBLK * NBLKBLK) * BlockSize ∧
     GoNfsd.Gen.Announce.fsinfoStatus = 0 ∧ GoNfsd.Gen.Announce.pathconfStatus = 0 := by
   decide
@@ -102,6 +103,20 @@ theorem wtmax_enforced (s : FS) (c : Choice) (fh : Bytes) (off count stable : Na
     simp only [step, maxWrite]
     grind [Reply.isOk]
   exact ⟨this, step_fail _ _ _ this⟩
+
+/-- Reads: a READ of up to the announced rtmax bytes that lies inside the file is served in
+    full, and a larger one is a short read of exactly rtmax bytes (RFC 1813), never an error. -/
+theorem rtmax_served (s : FS) (c : Choice) (fh : Bytes) (off count : Nat) (i : Nat)
+    (hr : resolve s fh = some i) (hk : (s.get i).kind = NF3REG) (hin : off + count < (s.get i).size) :
+    ∃ bytes, (step s (.read fh off count) c).2 = .data (min count s.wtmax) false bytes ∧
+      bytes.length = min count s.wtmax := by
+  simp only [step, hr, hk, ne_eq, not_true_eq_false, if_false]
+  have h1 : ¬ off ≥ (s.get i).size := by omega
+  have h2 : ¬ off + min count s.wtmax ≥ (s.get i).size := by
+    have : min count s.wtmax ≤ count := Nat.min_le_left _ _
+    omega
+  simp only [h1, h2, if_false]
+  exact ⟨_, rfl, by simp [readBytes]⟩
 
 /-- The announced maximum transfer fits the journal on every disk: its data blocks (one more
     when unaligned), four index blocks, the inode block and the block-bitmap blocks never exceed
